@@ -205,4 +205,147 @@ def satisfies (c : Cfg) (ty : Ty) (j : J) (v : Val) : Bool :=
   | .struct fs, .obj m, .struct vs => satFields c fs m vs
   | _, _, _ => false
 
+/-! ## the converse: inputs that must be accepted
+
+`complete c ty j`: the document `j` meets every declared constraint of the struct type `ty` with correctly typed
+values — stated from the declared tag options and the kinds, not from the unmarshaller's control flow:
+
+  * every tag parses, no option the model does not follow (`env=`, `inherit`, dotted keys);
+  * `optional=dep` / `optional=!dep` hold on the input;
+  * an absent field has a default whose text is a literal of the field's type, or is declared optional, or is a
+    map, or is a nested struct none of whose fields is required and that accepts the empty object;
+  * a null is supplied only for a field that is declared optional on this input;
+  * a supplied scalar is correctly typed (`primOK`): outside string mode a JSON number whose literal is an integer
+    literal of the bit size / a float64 literal (no float32 overflow), a JSON string for a string field, a JSON bool
+    for a bool field; in string mode (`,string`, form/path/header values) a string or number whose text is a literal
+    of the kind; it lies inside the declared range (a range is declared on numeric kinds only) and is one of the
+    declared options;
+  * arrays, objects for slices, maps, nested structs, element by element.
+-/
+
+/-- the text is a literal of kind `k` (`strconv` syntax and bit size; bool: 1/0/true/false in any case) -/
+def textTyped (k : Kind) (s : Str) : Bool :=
+  match convertFromString k s with | .ok _ => true | .error _ => false
+
+/-- `json.Number.Float64` succeeds on the literal -/
+def f64OK (lit : Str) : Bool :=
+  match parseFloat 64 lit with | .ok _ => true | .error _ => false
+
+/-- a JSON number is a correctly typed value of kind `k` outside string mode -/
+def numTyped (k : Kind) (lit : Str) : Bool :=
+  f64OK lit &&
+  match k with
+  | .int b => (match parseInt b lit with | .ok _ => true | .error _ => false)
+  | .uint b => (match parseUint b lit with | .ok _ => true | .error _ => false)
+  | .float b => (match parseFloat 64 lit with | .ok x => !(b = 32 && float32Overflows x) | .error _ => false)
+  | _ => false
+
+/-- the supplied scalar lies inside the declared range (no range: nothing to check) -/
+def inRange (r : Option Range) (x : J) : Bool :=
+  match r with
+  | none => true
+  | some r => match numOf x with | some q => Range.contains r q | none => false
+
+def inOptions (opts : List Str) (x : J) : Bool :=
+  opts.isEmpty || match textOf x with | some t => opts.contains t | none => false
+
+/-- a supplied scalar for a field of kind `k`: correctly typed, inside the range, among the options -/
+def primOK (fs : Bool) (r : Option Range) (opts : List Str) (k : Kind) (x : J) : Bool :=
+  (r.isNone || k.isNumeric) && inRange r x && inOptions opts x &&
+  (if fs then
+     (match x with
+      | .str s => textTyped k s
+      | .num lit => textTyped k lit && f64OK lit
+      | _ => false)
+   else
+     (match x with
+      | .num lit => numTyped k lit
+      | .str _ => k = .string
+      | .bool _ => k = .bool
+      | _ => false))
+
+def allJ (p : J → Bool) : List J → Bool
+  | [] => true
+  | j :: rest => p j && allJ p rest
+
+def allEntries (p : J → Bool) : Obj → Bool
+  | [] => true
+  | (_, j) :: rest => p j && allEntries p rest
+
+/-- the declarative counterpart of one field for the converse direction (`okv` = the supplied value is fine given
+string mode, range and options; `okAbs` = the field may be absent although required; `okDflt` = the default is a
+literal of the type) -/
+def fieldOK (c : Cfg) (name : Str) (tag : Option Str) (isSlice : Bool) (m : Obj)
+    (okv : Bool → Option Range → List Str → J → Bool) (okAbs : Bool) (okDflt : Str → Bool) : Bool :=
+  match tag with
+  | none => true
+  | some tv =>
+    match parseTagC c.repaired name tv with
+    | .error _ => false
+    | .ok (key, po) =>
+      depOK (effOpts po) key m &&
+      (key = "-".toList ||
+       (!optOutside po && !key.contains '.' &&
+        match getKey key m with
+        | none =>
+          if !(effOpts po).default.isEmpty then okDflt (effOpts po).default
+          else (declOptional (effOpts po) m || okAbs)
+        | some j0 =>
+          match fromArrayValue c isSlice j0 with
+          | .null => declOptional (effOpts po) m
+          | j => okv (effOpts po).fromString (effOpts po).range (effOpts po).options j))
+
+mutual
+/-- the supplied (non-null) value `j` is fine for a field of type `t` -/
+def okTy (c : Cfg) (fs : Bool) (r : Option Range) (opts : List Str) : Ty → J → Bool
+  | .ptr t, j => okTy c fs r opts t j
+  | .prim k, j => primOK (c.fromString || fs) r opts k j
+  | .struct fs', j => match j with | .obj m => okFields c fs' m | _ => false
+  | .slice t, j => match j with | .arr l => allJ (fun j => j.isNull || okElem c t j) l | _ => false
+  | .map t, j => match j with | .obj m => allEntries (fun j => okMapElem c t j) (canonObj m) | _ => false
+/-- a non-null element of an array: numbers and strings whose text is a literal of the kind, bools for bools -/
+def okElem (c : Cfg) : Ty → J → Bool
+  | .ptr t, j => okElem c t j
+  | .prim k, j =>
+    match j with
+    | .num s => textTyped k s
+    | .str s => textTyped k s
+    | .bool _ => k = .bool
+    | _ => false
+  | .struct fs, j => match j with | .obj m => okFields c fs m | _ => false
+  | .slice t, j => match j with | .arr l => allJ (fun j => j.isNull || okElem c t j) l | _ => false
+  | .map t, j => match j with | .obj m => allEntries (fun j => okMapElem c t j) (canonObj m) | _ => false
+/-- a value of an object for a map field -/
+def okMapElem (c : Cfg) : Ty → J → Bool
+  | .ptr t, j => okMapElem c t j
+  | .prim k, j =>
+    match j with
+    | .bool _ => k = .bool
+    | .str _ => k = .string
+    | .num lit => textTyped k lit
+    | _ => false
+  | .struct fs, j => match j with | .obj m => okFields c fs m | _ => false
+  | .slice t, j => match j with | .arr l => allJ (fun j => j.isNull || okElem c t j) l | _ => false
+  | .map t, j => match j with | .obj m => allEntries (fun j => okMapElem c t j) (canonObj m) | _ => false
+/-- a field that is neither optional nor defaulted may still be absent: maps, and nested structs without required fields -/
+def okAbsent (c : Cfg) : Ty → Bool
+  | .ptr t => okAbsent c t
+  | .prim _ => false
+  | .struct fs => (match structRequired fs with | .ok false => true | _ => false) && okFields c fs []
+  | .slice _ => false
+  | .map _ => true
+def okFields (c : Cfg) : Fields → Obj → Bool
+  | .nil, _ => true
+  | .cons name tag t rest, m =>
+    fieldOK c name tag t.isSlice m (fun fs r opts j => okTy c fs r opts t j) (okAbsent c t)
+      (fun d => match defaultVal c.repaired t d with | .ok _ => true | .error _ => false)
+    && okFields c rest m
+end
+
+/-- the document meets all declared constraints of the type with correctly typed values -/
+def complete (c : Cfg) (ty : Ty) (j : J) : Bool :=
+  match ty, j with
+  | .struct fs, .obj m => okFields c fs m
+  | _, _ => false
+
 end GoZero.C08.Spec
